@@ -127,6 +127,12 @@ func init() {
 		"verifIff": func(w *world, _ *frame, _ *ssa.Function, args []value) value {
 			return mkValue(types.Bool, w.tc.Eq(w.termOf(args[0]), w.termOf(args[1])))
 		},
+		"verifParam": func(w *world, _ *frame, _ *ssa.Function, args []value) value {
+			if v, ok := w.ex.params[concString(args[0], "param name")]; ok {
+				return v
+			}
+			return args[1]
+		},
 		"verifPublish": func(w *world, _ *frame, _ *ssa.Function, args []value) value {
 			w.published[concString(args[0], "publish name")] = w.termOf(args[1])
 			return nil
